@@ -677,7 +677,7 @@ func runC04(r *ev.Run) {
 	c04Adversary(r, R)
 	r.Set("trees", total)
 	r.Set("requests_per_tree", len(reqs))
-	r.Set("traces_validated_against_impl", r.Get("transitions"))
+	r.Alias("traces_validated_against_impl", "transitions")
 	r.Set("rule", "for every tree over the 6-key alphabet and every request (SyncGet x 13 probe keys x siblings x proof version; SyncIterate x prefetch; SyncGetPrefixes x limit): honest proof verifies and determines the answer; every entry-level mutant (drop, dup, swap, nil, to-hash, empty-hash, splice from neighbouring trees, append, version flip, fabricated) and, for trees <= 3 keys, every bit flip and truncation: rejected, or every answer a remote-backed reader derives from it equals the real contents; adversarial peer: every response tape of length <= R over a 7-item menu")
 	r.Assume("keys limited to the 6-key alphabet, values a/b (thorough adds the empty value)", "SHA-512/256 trusted")
 	r.Finish()
